@@ -18,7 +18,7 @@ RULE = (
     "models from vlib.modelgen extended with unused parameters, unused intermediates, chains of unused "
     "intermediates (u2 = g(u1), u1 = f(p_only_here)), parameters used only by unused definitions, states used "
     "by nothing but their own derivative, names used only through a Rush-Larsen linearisation or only together "
-    "with t x backend {numpy, C, jax} x schemes {explicit_euler, generalized_rush_larsen, hybrid_rush_larsen}. "
+    "with t x backend {numpy, C, jax} x schemes {explicit_euler, generalized_rush_larsen, hybrid_rush_larsen} x delta {default, 0, huge, just above / below a state's |g|}; one case in four has a gating-shaped rate (x_inf - x)/tau. "
     "Oracle (differential): module(remove_unused=True) vs module(False): rhs and every scheme equal slot by "
     "slot (<= 4 ulp) at every point, identical state / parameter index maps and array lengths, no NameError / "
     "UnboundLocalError / compile error, and both agree with the 256-bit reference. Non-trivial = the two "
@@ -61,10 +61,22 @@ def strategy(tier):
     @st.composite
     def _s(draw):
         model = add_unused(draw, G.gen_model(draw, cfg))
+        if draw(st.integers(0, 3)) == 0:
+            # a gating-shaped rate (x_inf - x)/tau: its linearisation is the fraction -1/tau
+            s = draw(st.sampled_from(model["states"]))["name"]
+            others = [n for n in X.state_names(model) + X.param_names(model) if n != s]
+            tau = draw(st.sampled_from([["num", "20"], ["num", "0.5"]] + [["bin", "+", ["call", "abs", ["var", o]], ["num", "2"]] for o in others[:3]]))
+            inf = draw(st.sampled_from([["num", "0.25"]] + [["var", o] for o in others[:3]]))
+            for a in model["assigns"]:
+                if a["name"] == X.deriv_name(s):
+                    a["expr"] = ["bin", "/", ["bin", "-", inf, ["var", s]], tau]
         need = [X.deriv_name(s["name"]) for s in model["states"]]
         pts = G.draw_points(draw, model, 2, need)
         names = X.state_names(model)
+        from props.c06 import draw_delta
+
         return {
+            "delta": draw_delta(draw, model, pts),
             "model": model,
             "points": pts,
             "backend": draw(st.sampled_from(["numpy", "numpy", "C", "C", "jax"])),
@@ -85,13 +97,13 @@ def check_case(case):
     ode = oracle.load_or_skip(text)
     backend = case["backend"]
     schemes = ["explicit_euler"] + (["generalized_rush_larsen", "hybrid_rush_larsen"] if grl_ok(model) else [])
-    ctx = {"text": text, "backend": backend, "schemes": schemes, "stiff": case["stiff"]}
+    ctx = {"text": text, "backend": backend, "schemes": schemes, "stiff": case["stiff"], "delta": case.get("delta", 1e-8)}
     try:
-        full = make_mod(backend, ode, model, schemes=schemes, remove_unused=False, stiff_states=case["stiff"])
+        full = make_mod(backend, ode, model, schemes=schemes, remove_unused=False, stiff_states=case["stiff"], delta=case.get("delta", 1e-8))
     except GenError as ex:
         raise Inconclusive(f"reference-module:{ex.signature()}")
     try:
-        red = make_mod(backend, ode, model, schemes=schemes, remove_unused=True, stiff_states=case["stiff"])
+        red = make_mod(backend, ode, model, schemes=schemes, remove_unused=True, stiff_states=case["stiff"], delta=case.get("delta", 1e-8))
     except GenError as ex:
         raise Violation(f"C12:{backend}:remove_unused:{ex.signature()}", dict(ctx, error=str(ex)[:1200], code=ex.code))
     ctx["code"] = red.code
